@@ -111,6 +111,7 @@ def check(ctx):
     nu.save_known_repros(ctx, violations)
     cov = evidence(mc, gstats, summs, segs, info, nseg, nev, scripts)
     cov["families_not_run_per_transport"] = skipped
+    cov["discarded_runs"] = nu.discarded_runs(ctx, lines)
     return conclude(ctx, "model_checking", cov, violations, ASSUME)
 
 
